@@ -176,8 +176,11 @@ func (s *Storer) resetDataSet() {
 	s.logger.Debugf("Storer reset dataset : %s", s.dir)
 
 	s.dataSetMux.Lock()
-	defer s.dataSetMux.Unlock()
 	ra := s.dataSet
+	s.dataSet = newDataSet(nil, nil)
+	s.dataSetMux.Unlock()
+	// closed without dataSetMux : closing a reader waits for the reader's own lock, which the
+	// reader holds while it asks for the last segment (getDataSet)
 	if ra != nil {
 		ra.Close()
 	}
@@ -196,8 +199,6 @@ func (s *Storer) resetDataSet() {
 		}
 		return nil
 	})
-
-	s.dataSet = newDataSet(nil, nil)
 }
 
 func (s *Storer) Close() error {
